@@ -412,7 +412,8 @@ def run_probe_miri(check, seed, extra=(), shards=16, corpus=False, wall_s=1500, 
         if m:
             text = r.err if UB_PAT.search(r.err) else r.out
             loc = ""
-            for lm in MIRI_LOC.finditer(text):
+            um = UB_PAT.search(text)
+            for lm in MIRI_LOC.finditer(text[um.start():]):   # only locations after the report, not those of compiler warnings
                 if "/crates/" in lm.group(1) and "/.cargo/" not in lm.group(1):
                     loc = lm.group(1)[lm.group(1).index("crates/"):] + ":" + lm.group(2)
                     break
